@@ -230,6 +230,7 @@ def gen_case(rng, n_ops, faults=False, crashes=False):
             att = {}
     if me_on and rng.chance(1, 2):
         out.extend(settle(users, ntop))
+    out = with_sys(rng.fork("sys"), out, faults)
     if me_on:
         out = with_me_tags(rng.fork("metags"), out, faults)
     out = with_deluser(rng.fork("deluser"), out, faults)
@@ -256,6 +257,32 @@ def pick_deluser(r2):
     if k < 9:
         return f"deluser {r2.choice(['S1', 'S2', 'S6'])} user={r2.choice(['U1', 'U2', 'U3'])}{hard}"
     return f"deluser S7 user=X{hard}"
+
+
+def with_sys(r2, out, faults):
+    """in one history out of three the system topic `sys` takes part: anybody who is logged in publishes to it without attaching, only the
+    root session subscribes (and reads, leaves, changes its own mode, bans itself and comes back); choices from a generator of their own"""
+    if not r2.chance(1, 3):
+        return out
+    first = next((i for i, o in enumerate(out) if o.split(" ")[0] not in ("reset", "user", "sess")), len(out))
+    n = 0
+    for _ in range(2 + r2.below(7)):
+        pos = first + r2.below(max(1, len(out) - first + 1))
+        while pos > 0 and pos < len(out) and out[pos - 1].split(" ")[0] in ("fail", "crash"):
+            pos += 1
+        anyone = r2.choice(["S1", "S2", "S3", "S4", "S5", "S6", "S7"])
+        n += 1
+        o = r2.choice([f"sub S7 sys", f"sub S7 sys", f"sub S7 sys mode={r2.choice(['JRWPD', 'JR', 'N', 'JRWPSO', 'JP', 'X'])}", f"sub {anyone} sys",
+                       f"pub {anyone} sys Y{n}", f"pub {anyone} sys Y{n}", f"pub {anyone} sys Y{n}" + r2.choice(["", " noecho=1", " head=sender:U1", " head=mime:text"]),
+                       f"leave S7 sys", f"leave S7 sys unsub=1", f"get S7 sys {r2.choice(['desc', 'data', 'sub', 'del', 'data'])}",
+                       f"get {anyone} sys {r2.choice(['desc', 'sub', 'data'])}", f"setsub S7 sys mode={r2.choice(['JRWPD', 'N', 'JR', 'JRWPO', 'W'])}", f"setsub S7 sys",
+                       f"note S7 sys {r2.choice(['read', 'recv'])} {r2.below(4)}", f"delmsg S7 sys {r2.below(3)}:{r2.below(5)}" + r2.choice(["", " hard=1"]),
+                       f"pub S7 sys Z{n} as={r2.choice(['U1', 'U2'])}"])
+        ins = [o]
+        if faults and o.split(" ")[0] in ("sub", "pub", "setsub", "leave", "delmsg") and r2.chance(1, 5):
+            ins.insert(0, f"fail {1 + r2.below(3)}")
+        out = out[:pos] + ins + out[pos:]
+    return out
 
 
 def with_me_tags(r2, out, faults):
